@@ -105,6 +105,10 @@ impl Check for C06 {
                 return true;
             }
             last_len = b.len();
+            // reach probes count states visited, whatever the library then does with them
+            if b.len() <= 12 && wire::V2_SIG.starts_with(b) {
+                st.hit(SIGP[b.len()]);
+            }
             let a = guard(|| HeaderResult::parse(b));
             let r2 = guard(|| v2::Header::try_from(b));
             let r1 = guard(|| v1::Header::try_from(b));
@@ -121,9 +125,6 @@ impl Check for C06 {
                 b.len() as u64,
                 (a.is_incomplete() as u64) | ((r2.is_ok() as u64) << 1) | ((r1.is_ok() as u64) << 2),
             );
-            if b.len() <= 12 && wire::V2_SIG.starts_with(b) {
-                st.hit(SIGP[b.len()]);
-            }
             let a_ok = matches!(&a, HeaderResult::V1(Ok(_)) | HeaderResult::V2(Ok(_)));
             let mut fail: Option<(&'static str, String)> = None;
             // The oracle is the property's statement, clause by clause, and nothing more: in
